@@ -694,3 +694,24 @@ def loop_exits(f, around_bb, drivers=("next", "pop", "pop_front", "pop_back", "n
 def all_loop_exits(f):
     """loop_exits for every natural loop of f: [(driver, exits)]"""
     return [loop_exits(f, (h, body)) for (h, body) in f._natural_loops() if h in f.reach_blocks]
+
+
+def family_strs(P, S, fid):
+    """string constants a function mentions, in its own body, its closures and promoted constants, and — a table of literals given a name
+    (`const CONTENT_FILES: [&str; 3] = [..]`, module-level or local) — in the constant arrays it refers to"""
+    import json as _json
+    from srclib import lit_str as _ls
+    out = []
+    for k in P.family(fid):
+        g = P.fns.get(k)
+        if g is None:
+            continue
+        out += g.const_strs()
+        for m in re.finditer(r'"item": "([^"]+)"', _json.dumps(g.blocks)):
+            c = S.consts.get(m.group(1).split("::")[-1])
+            e = c.get("expr") if c else None
+            while isinstance(e, dict) and e.get("k") in ("ref", "paren"):
+                e = e["expr"]
+            if isinstance(e, dict) and e.get("k") == "array":
+                out += [x for x in (_ls(y) for y in e["elems"]) if x is not None]
+    return out
